@@ -230,13 +230,12 @@ _verdict(bool(bad), **bad)
 '''
 
 
-def engine_workers(chk):
+def engine_workers(chk, n_seeds=4, max_workers=3):
     """(4) for every number of workers <= 3 and every completion order the returned multiset of rows equals the one-worker run."""
     import hiten.algorithms.poincare.centermanifold.engine as eng
     from hiten.algorithms.poincare.centermanifold.interfaces import _CenterManifoldInterface
     from hiten.algorithms.poincare.centermanifold.types import CenterManifoldBackendRequest, CenterManifoldBackendResponse
     chk.encode(eng._CenterManifoldEngine.solve, _CenterManifoldInterface.enforce_section_coordinate, _CenterManifoldInterface.plane_points_from_states)
-    n_seeds = 4
     S0 = [[W.var('z%d_%d' % (i, c)) for c in range(4)] for i in range(n_seeds)]
     sc = 'q3'
     ex = Explorer(max_paths=3000, time_budget_s=600)
@@ -303,7 +302,7 @@ def engine_workers(chk):
     def go():
         flag_cache.clear()
         out = []
-        for nw in (1, 2, 3):
+        for nw in range(1, max_workers + 1):
             nf = min(nw, n_seeds)
             for perm in ([None] if nw == 1 else list(itertools.permutations(range(nf)))):
                 perm_holder['perm'] = perm
@@ -329,8 +328,8 @@ def engine_workers(chk):
             for row in r[2]:
                 zero_ok = zero_ok and not Sym.lift(row[2]).t       # q3 is column 2 of (q2, p2, q3, p3)
     chk.absorb(ex)
-    (chk.ok if ok else (lambda o, d: chk.fail(o, d, _replay_workers(), replay_timeout=1500)))('C14/(4)engine/workers-and-completion-order', '%d success patterns of the per-seed map over 2 iterations: the multiset of returned rows and times is the same for 1, 2, 3 workers and every completion order (%d rows in the reference runs)' % (len(paths), nrows))
-    (chk.ok if zero_ok else (lambda o, d: chk.fail(o, d, None)))('C14/(2)section-coordinate-zero', 'every returned row has its section coordinate exactly 0 (enforce_section_coordinate on each iterate and on the merged result)')
+    (chk.ok if ok else (lambda o, d: chk.fail(o, d, _replay_workers(), replay_timeout=1500)))('C14/(4)engine/workers-and-completion-order%s' % ('' if (n_seeds, max_workers) == (4, 3) else '/%d seeds, <= %d workers' % (n_seeds, max_workers)), '%d success patterns of the per-seed map over 2 iterations: the multiset of returned rows and times is the same for 1..%d workers (%d seeds) and every completion order (%d rows in the reference runs)' % (len(paths), max_workers, n_seeds, nrows))
+    (chk.ok if zero_ok else (lambda o, d: chk.fail(o, d, None)))('C14/(2)section-coordinate-zero%s' % ('' if (n_seeds, max_workers) == (4, 3) else '/%d seeds' % n_seeds), 'every returned row has its section coordinate exactly 0 (enforce_section_coordinate on each iterate and on the merged result)')
     # index table: rows are (q2, p2, q3, p3)
     from hiten.algorithms.poincare.centermanifold.interfaces import _STATE_INDEX
     okidx = _STATE_INDEX == {'q2': 0, 'p2': 1, 'q3': 2, 'p3': 3}
@@ -338,21 +337,25 @@ def engine_workers(chk):
     for name, col in (('q2', 0), ('p2', 1), ('q3', 2), ('p3', 3)):
         out = iface.enforce_section_coordinate(arr, section_coord=name)
         okidx = okidx and all((not Sym.lift(out[0, c]).t) if c == col else same(out[0, c], arr[0, c]) for c in range(4))
-    (chk.ok if okidx else (lambda o, d: chk.fail(o, d, None)))('C14/(2)enforce-section-coordinate/index-map', 'the column zeroed for each section is the one the backend stores that coordinate in; the others are untouched')
+    (chk.ok if okidx else (lambda o, d: chk.fail(o, d, None)))('C14/(2)enforce-section-coordinate/index-map%s' % ('' if (n_seeds, max_workers) == (4, 3) else '/%d seeds' % n_seeds), 'the column zeroed for each section is the one the backend stores that coordinate in; the others are untouched')
 
 
 def main():
     chk = Check(PID)
+    thorough = chk.tier == 'thorough'
     import hiten.algorithms.poincare.centermanifold.backend as cmb
-    chk.bound(seeds='4', iterations='2 map iterations', workers='1..3 with every completion order', steps='<= 2 integration steps per return', sections='q2, p2, q3, p3')
+    chk.bound(seeds='4 (thorough: also 5 and 7)', iterations='2 map iterations', workers='1..3 with every completion order (thorough: 1..4)', steps='<= 2 integration steps per return (thorough: 3)', sections='q2, p2, q3, p3')
     chk.assume('direction convention of the one-sided sections as in the code comments: conjugate momentum > 0 for q-sections, time derivative of the conjugate coordinate > 0 for p-sections', 'the one-step integrator and the Hamiltonian vector field are uninterpreted in the stepping obligations; the per-seed return map with a free success flag per seed in the engine obligation',
                'thread pool and as_completed replaced by a deterministic stand-in that completes futures in each chosen order')
     chk.out_of_scope('energy conservation along map iterates and accuracy of the Hermite-refined point (numerics)', 'the RK copy used by the map equals the generic kernel: C02-(4)', 'seed lifting to the energy level: C09-(4)')
     detect_crossing(chk, cmb)
     for sc in ('q3', 'p3', 'q2', 'p2'):
-        poincare_step(chk, cmb, sc, 2)
+        poincare_step(chk, cmb, sc, 3 if thorough else 2)
     poincare_map_schedule(chk, cmb)
     engine_workers(chk)
+    if thorough:
+        engine_workers(chk, n_seeds=5, max_workers=4)
+        engine_workers(chk, n_seeds=7, max_workers=3)
     return chk.finish()
 
 
